@@ -284,6 +284,8 @@ class StartOrderMonitor(Monitor):
             pv = a_view.processes.get(q['name'])
             if pv is None:
                 continue
+            if not q['wait_exit'] and any(o.alive and o.truth().get(q['namespec']) == RUNNING for o in w.instances):
+                continue      # it has finished starting: another copy (concurrent job of another instance) is RUNNING
             for peer in w.instances:
                 if not peer.alive or peer.truth().get(q['namespec']) not in (STARTING, BACKOFF):
                     continue
